@@ -46,6 +46,17 @@ CHECKS = {
                      "named in the property is checked at every grid point; the total is compared with a composite Gauss-Legendre quadrature of the library's "
                      "own differential form whose convergence is verified in the run.",
                 note="The continuum is represented by the grid, not covered; tolerances 1e-8 (quadrature), 1e-10..1e-12 (algebraic identities)."),
+    "C05": dict(level="exploration", engine="ENUM", ref="4/C05",
+                technique="exhaustive enumeration of Z x energy alphabet x angle grids; identities re-evaluated from the public component functions",
+                text="For every element, every knot/edge/table-end energy (+-eps) and angle grid point the ~35 aggregate and unit-variant entry points are "
+                     "compared with the defining identity evaluated from the public parts of the same build (same operation order, rel. 1e-13), and the "
+                     "aggregate must fail exactly when a part is undefined.",
+                note="Differential oracle (parts decided by C01/C02). Continuous arguments represented by the structured alphabet."),
+    "C11": dict(level="exploration", engine="ENUM", ref="4/C11",
+                technique="exhaustive enumeration of Z x shells x all 996 Auger macros against a derivation from the independently parsed raw table",
+                text="Complete enumeration of every (Z, shell) and (Z, Auger macro) cell incl. margins in both configurations; rates are re-derived from an "
+                     "independent parse of auger_rates.dat with Coster-Kronig membership decided from the macro names, yields from the public yields/CK values.",
+                note="Trusts the Python reader of auger_rates.dat and the '%.10E' model; fluorescence yields / CK values come through the public API (C01 binds them to the files)."),
 }
 NOT_YET = {}
 ALL = ["C%02d" % i for i in range(1, 21)]
